@@ -107,6 +107,15 @@ func c06rPrelude() []c06rTable {
 		{label: "pre-chain-back-to-orig", entries: E("a.test", "x.test", "x.test", "y.x.test", "y.x.test", "a.test", "a.test", "1.1.1.1")},
 		{label: "pre-exc-after-cname", entries: E("a.test", "x.test", "x.test", "A", "x.test", "1.1.1.1", "x.test", "::1")},
 		{label: "pre-exc-other-family-shadows", entries: E("b.a.test", "AAAA", "*.a.test", "1.1.1.1", "*.a.test", "::1")},
+		// round 4 (seeded change C06-H): the exception of the other family
+		// is an exact entry and shadows wildcard values, also when the name
+		// is reached through a canonical name; an address VALUE of the other
+		// family is no entry for the requested type (the wildcard's value is
+		// answered: observed, "most specific for the question type")
+		{label: "pre-exc-other-family-shadows-a", entries: E("*.a.test", "::1", "b.a.test", "A", "*.test", "2001:db8::1")},
+		{label: "pre-exc-other-family-shadows-cname", entries: E("x.test", "b.a.test", "*.a.test", "1.1.1.1", "b.a.test", "AAAA")},
+		{label: "pre-exc-other-family-shadows-value-beside", entries: E("*.a.test", "1.1.1.1", "b.a.test", "AAAA", "b.a.test", "2.2.2.2")},
+		{label: "pre-other-family-value-beside-wild", entries: E("*.a.test", "1.1.1.1", "b.a.test", "::1")},
 		{label: "pre-wild-exc", entries: E("*.a.test", "A", "*.test", "1.1.1.1", "*.a.test", "::1")},
 		{label: "pre-dup", entries: E("a.test", "1.1.1.1", "a.test", "1.1.1.1", "*.a.test", "2.2.2.2", "*.a.test", "2.2.2.2", "b.a.test", "a.test", "b.a.test", "a.test")},
 		{label: "pre-two-wild-same", entries: E("*.a.test", "1.1.1.1", "*.a.test", "1.1.1.2", "*.a.test", "::1")},
@@ -214,7 +223,52 @@ func c06rRandDom(r *vfRand) string {
 
 func c06rRandTable(r *vfRand) (t c06rTable) {
 	n := r.Intn(11)
-	switch r.Intn(4) {
+	switch r.Intn(5) {
+	case 4: // an exact entry of some kind beside wildcard values (round 4)
+		t.label = "rand-shadow"
+		under := map[string][]string{
+			"a.test": {"*.test"}, "x.test": {"*.test"},
+			"b.a.test": {"*.a.test", "*.test"}, "y.x.test": {"*.x.test", "*.test"},
+			"c.b.a.test": {"*.b.a.test", "*.a.test", "*.test"},
+		}
+		name := vfPick(r, []string{"a.test", "x.test", "b.a.test", "y.x.test", "c.b.a.test"})
+		typed := func(d string) string {
+			if r.Chance(1, 6) {
+				return c06rMixCase(r, d)
+			}
+			return d
+		}
+		for _, w := range under[name] {
+			if r.Chance(2, 3) {
+				t.entries = append(t.entries, c06rEntry{typed(w), vfPick(r, c06rV4)})
+			}
+			if r.Chance(1, 2) {
+				t.entries = append(t.entries, c06rEntry{typed(w), vfPick(r, c06rV6)})
+			}
+		}
+		switch k := r.Intn(10); {
+		case k < 4:
+			t.entries = append(t.entries, c06rEntry{typed(name), "AAAA"})
+		case k < 8:
+			t.entries = append(t.entries, c06rEntry{typed(name), "A"})
+		case k < 9:
+			t.entries = append(t.entries, c06rEntry{typed(name), vfPick(r, c06rV6)})
+		default:
+			t.entries = append(t.entries, c06rEntry{typed(name), vfPick(r, c06rV4)})
+		}
+		if r.Chance(1, 4) { // a value of one family beside the exception
+			t.entries = append(t.entries, c06rEntry{typed(name), vfPick(r, append(append([]string{}, c06rV4...), c06rV6...))})
+		}
+		if r.Chance(1, 2) { // the name is reached through a canonical name
+			alias := vfPick(r, []string{"test", "q.a.test", "z.test", "*.x.test", "x.test"})
+			if alias != name && !c06rMatches(alias, name) {
+				t.entries = append(t.entries, c06rEntry{alias, typed(name)})
+			}
+		}
+		for i, m := 0, r.Intn(3); i < m; i++ {
+			d := c06rRandDom(r)
+			t.entries = append(t.entries, c06rEntry{d, c06rRandAnswer(r, d)})
+		}
 	case 0: // independent entries
 		t.label = "rand-uniform"
 		for i := 0; i < n; i++ {
@@ -459,6 +513,81 @@ func c06rRun(s *Server, ups *c06rUpstream, deadline time.Duration, name string, 
 	return o
 }
 
+// c06rExcOtherFamilyShadows: the shape of the seeded change C06-H: for the
+// name an exact "A"/"AAAA" exception of the OTHER family, a wildcard value of
+// the requested family, and neither an exact value of the requested family,
+// an exception of the requested family nor a canonical name covering it.
+func c06rExcOtherFamilyShadows(tbl []c06rEntry, name string, qt uint16) bool {
+	other, own := "AAAA", "A"
+	if qt == dns.TypeAAAA {
+		other, own = "A", "AAAA"
+	}
+	excOther, wildVal := false, false
+	for _, e := range tbl {
+		d := strings.ToLower(e.dom)
+		if !c06rMatches(e.dom, name) {
+			continue
+		}
+		ip, err := netip.ParseAddr(e.ans)
+		switch {
+		case e.ans == other:
+			excOther = excOther || d == name && !c06rIsWild(d)
+		case e.ans == own:
+			return false
+		case err != nil:
+			return false
+		case ip.Is4() == (qt == dns.TypeA):
+			if d == name && !c06rIsWild(d) {
+				return false
+			}
+			wildVal = true
+		}
+	}
+	return excOther && wildVal
+}
+
+// c06rAddrSource: a locally answered address is the value of the most
+// specific entry for the finally resolved name: of an exact entry when the
+// name has an exact value of the family or an exact "A"/"AAAA" entry of
+// either family (an exact entry shadows wildcard entries whatever its kind),
+// else of the longest wildcard.
+func c06rAddrSource(tbl []c06rEntry, final string, qt uint16, a netip.Addr) (ok bool, kind, msg string) {
+	same := func(ip netip.Addr) bool { return ip == a || ip.Unmap() == a.Unmap() && !ip.Is4() && !a.Is4() }
+	var cand []c06rEntry
+	anyExact, maxLen, excExactAny := false, 0, ""
+	for _, e := range tbl {
+		d := strings.ToLower(e.dom)
+		if (e.ans == "A" || e.ans == "AAAA") && d == final && !c06rIsWild(d) {
+			excExactAny = e.dom + " -> " + e.ans
+		}
+		ip, err := netip.ParseAddr(e.ans)
+		if err != nil || ip.Is4() != (qt == dns.TypeA) || !c06rMatches(e.dom, final) {
+			continue
+		}
+		cand = append(cand, e)
+		anyExact = anyExact || d == final
+		maxLen = max(maxLen, len(e.dom))
+	}
+	found, precise, exact := false, false, false
+	for _, e := range cand {
+		if ip, _ := netip.ParseAddr(e.ans); same(ip) {
+			found = true
+			isEx := strings.ToLower(e.dom) == final
+			precise = precise || anyExact && isEx || !anyExact && len(e.dom) == maxLen
+			exact = exact || isEx
+		}
+	}
+	switch {
+	case !found:
+		return false, "foreign-address", fmt.Sprintf("locally answered address %s is not in the table for %q and the requested family", a, final)
+	case !precise:
+		return false, "precedence", fmt.Sprintf("address %s for %q comes from a shadowed (less specific) entry", a, final)
+	case excExactAny != "" && !exact:
+		return false, "precedence", fmt.Sprintf("address %s for %q comes from a wildcard entry although the exact entry %s exists (an exact entry shadows wildcard entries; an \"A\"/\"AAAA\" entry lets only that type pass)", a, final, excExactAny)
+	}
+	return true, "", ""
+}
+
 // c06rMonitor states the response-side part of the property on what the
 // client received, from the table alone.
 func c06rMonitor(tbl []c06rEntry, name string, qt uint16, o c06rObs) (ok bool, kind, msg string) {
@@ -530,6 +659,14 @@ func c06rMonitor(tbl []c06rEntry, name string, qt uint16, o c06rObs) (ok bool, k
 			}
 			if !found {
 				return false, "foreign-address", fmt.Sprintf("locally answered address %s is not a table value of the requested family", a)
+			}
+			// ... of the most specific entry for the finally resolved name
+			final := host
+			if cn, isC := o.res.Answer[0].(*dns.CNAME); isC {
+				final = strings.ToLower(c06rTrim(cn.Target))
+			}
+			if ok, kind, msg = c06rAddrSource(tbl, final, qt, a); !ok {
+				return false, kind, msg
 			}
 		}
 		if o.res.Rcode != dns.RcodeSuccess {
@@ -677,6 +814,20 @@ func TestVerifC06Resp(t *testing.T) {
 					hung = true
 				}
 				qCoq = append(qCoq, fmt.Sprintf("(QR %s %d %s)", c06rStr(h), qt, o.coq()))
+				if enabled && !o.timeout && o.res != nil && len(o.calls) == 0 && (qt == dns.TypeA || qt == dns.TypeAAAA) {
+					fin := strings.ToLower(h)
+					if len(o.res.Answer) > 0 {
+						if cn, isC := o.res.Answer[0].(*dns.CNAME); isC {
+							fin = strings.ToLower(c06rTrim(cn.Target))
+						}
+					}
+					if c06rExcOtherFamilyShadows(tb.entries, fin, qt) {
+						classes["resp-shadow-exc-other-family"] = true
+						if fin != strings.ToLower(h) {
+							classes["resp-shadow-exc-other-family-via-cname"] = true
+						}
+					}
+				}
 				switch {
 				case o.timeout || o.res == nil:
 					classes["resp-timeout-or-error"] = true
